@@ -1058,4 +1058,138 @@ Section PSC.
           * apply IH; assumption.
     Qed.
   End RUNPSC.
+
+  (* ================================================================ the initial allocation *)
+  (* every candidate named on a ballot is a candidate of the count *)
+  Lemma addall_incl l : forall acc x, In x acc -> In x (fold_left (fun acc c => if cmem c acc then acc else acc ++ [c]) l acc).
+  Proof.
+    induction l as [|c l IH]; intros acc x H; simpl; [exact H|]. apply IH. destruct (cmem c acc); [exact H|apply in_or_app; left; exact H].
+  Qed.
+  Lemma addall_in l : forall acc x, In x l -> In x (fold_left (fun acc c => if cmem c acc then acc else acc ++ [c]) l acc).
+  Proof.
+    induction l as [|c l IH]; intros acc x H; simpl; [destruct H|]. destruct H as [->|H]; [|apply IH, H].
+    apply addall_incl. destruct (cmem x acc) eqn:E; [apply cmem_In, E|apply in_or_app; right; left; reflexivity].
+  Qed.
+
+  Lemma all_ranked_in (votes : list (ballot * Q)) b w it x :
+    In (b, w) votes -> In it b -> In x (members it) -> In x (all_ranked_candidates votes).
+  Proof.
+    intros Hv Hit Hx. unfold all_ranked_candidates.
+    set (inner := fun (i : nat) (acc : list C) =>
+       fold_left (fun acc (bw : ballot * Q) => match nth_error (fst bw) i with
+                   | Some it => fold_left (fun acc c => if cmem c acc then acc else acc ++ [c]) (members it) acc
+                   | None => acc end) votes acc).
+    assert (Hinc : forall i (vs : list (ballot * Q)) acc y, In y acc ->
+              In y (fold_left (fun acc (bw : ballot * Q) => match nth_error (fst bw) i with
+                   | Some it => fold_left (fun acc c => if cmem c acc then acc else acc ++ [c]) (members it) acc
+                   | None => acc end) vs acc)).
+    { intros i. induction vs as [|bw vs IH]; intros acc y H; simpl; [exact H|]. apply IH.
+      destruct (nth_error (fst bw) i); [apply addall_incl, H|exact H]. }
+    assert (Hin : forall i (vs : list (ballot * Q)) acc, In (b, w) vs -> nth_error b i = Some it ->
+              In x (fold_left (fun acc (bw : ballot * Q) => match nth_error (fst bw) i with
+                   | Some it => fold_left (fun acc c => if cmem c acc then acc else acc ++ [c]) (members it) acc
+                   | None => acc end) vs acc)).
+    { intros i. induction vs as [|bw vs IH]; intros acc H Hn; [destruct H|]. simpl. destruct H as [->|H]; [|apply IH; assumption].
+      apply Hinc. cbn [fst]. rewrite Hn. apply addall_in, Hx. }
+    destruct (In_nth_error b it Hit) as (i & Hi).
+    assert (Hlen : (i < length b)%nat) by (apply nth_error_Some; congruence).
+    assert (Hmax : forall (vs : list (ballot * Q)) m0,
+              (m0 <= fold_left (fun m (bw : ballot * Q) => Nat.max m (length (fst bw))) vs m0)%nat /\
+              (In (b, w) vs -> (length b <= fold_left (fun m (bw : ballot * Q) => Nat.max m (length (fst bw))) vs m0)%nat)).
+    { induction vs as [|bw vs IH]; intros m0; cbn [fold_left]; [split; [lia|intros []]|].
+      destruct (IH (Nat.max m0 (length (fst bw)))) as [H1 H2]. split; [lia|]. intros [->|H]; [cbn [fst] in *; lia|exact (H2 H)]. }
+    match goal with |- In _ (fold_left _ (seq 0 ?m) _) => set (mx := m) end.
+    assert (Hm : (length b <= mx)%nat) by (unfold mx; exact (proj2 (Hmax votes 0%nat) Hv)).
+    assert (Hseq : In i (seq 0 mx)) by (apply in_seq; lia).
+    revert Hseq. generalize (seq 0 mx). intros is Hseq.
+    assert (Houter : forall (is : list nat) acc,
+              (forall y, In y acc -> In y (fold_left (fun acc i => inner i acc) is acc)) /\
+              (In i is -> In x (fold_left (fun acc i => inner i acc) is acc))).
+    { induction is0 as [|j is0 IH]; intros acc; simpl; [split; [tauto|intros []]|].
+      destruct (IH (inner j acc)) as [H1 H2]. split.
+      - intros y Hy. apply H1. unfold inner. apply Hinc, Hy.
+      - intros [->|H]; [|exact (H2 H)]. apply H1. unfold inner. apply Hin; assumption. }
+    exact (proj2 (Houter is []) Hseq).
+  Qed.
+
+  Lemma cwa_move_nonsolid a tg b w : solid_b SS b = false -> cwa (move_ballot a tg b w) == cwa a.
+  Proof.
+    intros Hs. assert (H0 : forall x, sw b x = 0) by (intros x; unfold sw; rewrite Hs; reflexivity).
+    unfold move_ballot. destruct tg as [|t ts].
+    - rewrite cwa_alloc_add. simpl. ring.
+    - generalize (Qred (w / inject_Z (Z.of_nat (length (t :: ts))))). intros sh.
+      revert a. induction (t :: ts) as [|x xs IH]; intros a; simpl; [reflexivity|].
+      rewrite IH, cwa_alloc_add, H0. destruct (inS (Some x)); ring.
+  Qed.
+
+  Lemma solid_not_shared l t : SS <> [] -> solid_b SS (IS l :: t) = false.
+  Proof.
+    intros Hne. destruct (solid_b SS (IS l :: t)) eqn:E; [|reflexivity].
+    destruct (solid_b_first SS _ Hne E) as (c & t' & Heq & _). discriminate.
+  Qed.
+  Lemma solid_not_empty : SS <> [] -> solid_b SS [] = false.
+  Proof.
+    intros Hne. destruct (solid_b SS []) eqn:E; [|reflexivity].
+    destruct (solid_b_first SS _ Hne E) as (c & t' & Heq & _). discriminate.
+  Qed.
+
+  Theorem initial_psc (votes : list (ballot * Q)) (K : list C) : SS <> [] ->
+    (forall b w, In (b, w) votes -> 0 <= w) ->
+    let a0 := initial_allocation votes in
+    alloc_nonneg a0 /\ BB K a0 /\ keys_some a0 = all_ranked_candidates votes /\
+    cwa a0 == coalition_weight SS votes.
+  Proof.
+    intros Hne Hw. unfold initial_allocation. set (cands := all_ranked_candidates votes).
+    set (base := map (fun c => (Some c, @nil (ballot * Q))) cands).
+    assert (Hb : alloc_nonneg base /\ BB K base /\ keys_some base = cands /\ cwa base == 0).
+    { unfold base. clear. induction cands as [|c l IH]; [repeat split; [constructor|intros c p b w []]|].
+      destruct IH as (I1 & I2 & I3 & I4). cbn [map]. repeat split.
+      - constructor; [constructor|exact I1].
+      - intros c0 p b w [H|H] Hb; [injection H as _ <-; destruct Hb|exact (I2 c0 p b w H Hb)].
+      - change (keys_some ((Some c, []) :: map (fun c0 : C => (Some c0, [])) l)) with (c :: keys_some (map (fun c0 : C => (Some c0, @nil (ballot * Q))) l)).
+        rewrite I3. reflexivity.
+      - cbn [cwa fold_right fst snd]. fold (cwa (map (fun c0 : C => (Some c0, @nil (ballot * Q))) l)). rewrite I4.
+        destruct (inS (Some c)); simpl; ring. }
+    assert (Hd : forall (vs : list (ballot * Q)) a0, incl vs votes -> alloc_nonneg a0 -> BB K a0 -> keys_some a0 = cands ->
+       let r := fold_left (fun a bw => match fst bw with IP c :: _ => alloc_add a (Some c) (fst bw) (snd bw) | _ => a end) vs a0 in
+       alloc_nonneg r /\ BB K r /\ keys_some r = cands /\ cwa r == cwa a0 + coalition_weight SS vs).
+    { induction vs as [|[b w] vs IH]; intros a0 Hi Hnn HB Hk; cbv zeta; [simpl; repeat split; try assumption; ring|].
+      assert (Hi' : incl vs votes) by (intros x Hx; apply Hi; right; exact Hx).
+      assert (Hbw : In (b, w) votes) by (apply Hi; left; reflexivity).
+      cbn [fold_left fst snd coalition_weight fold_right]. fold (coalition_weight SS vs).
+      destruct b as [|[c|l] t].
+      - destruct (IH a0 Hi' Hnn HB Hk) as (R1 & R2 & R3 & R4). repeat split; try assumption.
+        rewrite R4, (solid_not_empty Hne). ring.
+      - assert (Hc : In c (keys_some a0)).
+        { rewrite Hk. apply (all_ranked_in votes (IP c :: t) w (IP c) c Hbw); left; reflexivity. }
+        destruct (IH (alloc_add a0 (Some c) (IP c :: t) w) Hi') as (R1 & R2 & R3 & R4).
+        + apply alloc_add_nonneg; [exact Hnn|apply (Hw _ _ Hbw)].
+        + apply BB_alloc_add; [exact HB|]. intros c0 [= <-] Hs. unfold okb.
+          destruct (solid_b_first SS _ Hne Hs) as (c1 & t1 & Heq & Hc1). injection Heq as <- _.
+          apply cmem_In in Hc1. rewrite Hc1. cbn [rests_ok]. rewrite ceqb_refl. reflexivity.
+        + rewrite keys_some_add_some; assumption.
+        + repeat split; try assumption. rewrite R4, cwa_alloc_add. cbn [inS]. unfold sw.
+          destruct (solid_b SS (IP c :: t)) eqn:Hs; [|destruct (cmem c SS); ring].
+          destruct (solid_b_first SS _ Hne Hs) as (c1 & t1 & Heq & Hc1). injection Heq as <- _.
+          apply cmem_In in Hc1. rewrite Hc1. ring.
+      - destruct (IH a0 Hi' Hnn HB Hk) as (R1 & R2 & R3 & R4). repeat split; try assumption.
+        rewrite R4, (solid_not_shared l t Hne). ring. }
+    assert (Hs : forall (vs : list (ballot * Q)) a0, incl vs votes -> alloc_nonneg a0 -> BB K a0 -> keys_some a0 = cands ->
+       let r := fold_left (fun a bw => match fst bw with IS _ :: _ => move_ballot a (next_after (fst bw) cands) (fst bw) (snd bw) | _ => a end) vs a0 in
+       alloc_nonneg r /\ BB K r /\ keys_some r = cands /\ cwa r == cwa a0).
+    { induction vs as [|[b w] vs IH]; intros a0 Hi Hnn HB Hk; cbv zeta; [simpl; repeat split; try assumption; ring|].
+      assert (Hi' : incl vs votes) by (intros x Hx; apply Hi; right; exact Hx).
+      assert (Hbw : In (b, w) votes) by (apply Hi; left; reflexivity).
+      cbn [fold_left fst snd].
+      destruct b as [|[c|l] t]; [exact (IH a0 Hi' Hnn HB Hk)|exact (IH a0 Hi' Hnn HB Hk)|].
+      destruct (IH (move_ballot a0 (next_after (IS l :: t) cands) (IS l :: t) w) Hi') as (R1 & R2 & R3 & R4).
+      + apply move_ballot_nonneg; [exact Hnn|apply (Hw _ _ Hbw)].
+      + apply BB_move; [exact HB|]. intros t0 _ Hsol. rewrite (solid_not_shared l t Hne) in Hsol. discriminate.
+      + rewrite keys_some_move; [exact Hk|]. rewrite Hk. apply next_after_allowed.
+      + repeat split; try assumption. rewrite R4. apply cwa_move_nonsolid, solid_not_shared, Hne. }
+    destruct Hb as (B1 & B2 & B3 & B4).
+    destruct (Hd votes base (incl_refl _) B1 B2 B3) as (D1 & D2 & D3 & D4).
+    destruct (Hs votes _ (incl_refl _) D1 D2 D3) as (S1 & S2 & S3 & S4).
+    repeat split; try assumption. rewrite S4, D4, B4. ring.
+  Qed.
 End PSC.
